@@ -2,15 +2,27 @@
   C15 — circuits reported equal are equivalent; de-duplication keeps every distinct one.
 
   Property theorems only (lemmas in Proofs/Compare.lean).  Objects: circuits as operation lists on typed registers
-  (Model/Export.lean); `directL` = `compare(method="direct")` on operation lists (the driver checks on every input that
-  it agrees with the model's walk over the simulated DAG and with the implementation); `circuitIsIsomorphic`,
+  (Model/Export.lean); `directL` = `compare(method="direct")` on operation lists — proved equal to the model's walk over
+  the simulated DAG `direct` for well-formed circuits (§4, `direct_walk_is_its_operation_list_form`; the driver also checks
+  it on every input, and compares `direct` with the implementation); `circuitIsIsomorphic`,
   `isoNormalised` = the isomorphism comparison as coded (simulated DAG with ordered parallel edges, `control_target`
   attributes, `node_match`, `edge_match` on the multiset of roles of the parallel edges); `removeRedundantWith`, `storageAddAll` = the filters.
   Reference notions: `wiresEq` (same registers, same executed operations on every quantum register) and `renEq`
   (the same up to a renaming of registers within each type).  That equal wire sequences compile to equal states is the
   commutation fact of C13/C01, evaluated here by the direct oracle of the harness (all measurement branches).
+
+  §3 is about the isomorphism comparison *as it stands in /repo* (refuted, finding D22′); §4 is about the comparison after
+  the repair handoff/repairs/d22/patch.diff (`circuitIsIsomorphic2`: every edge carries the roles of its register at both
+  ends) — for it the full statement is proved (`iso_sound`).  The harness probes which of the two the implementation under
+  test is and compares it with the corresponding model functions.
 -/
 import GraphiqModel.Proofs.Compare
+import GraphiqModel.Proofs.CompareRepairNorm
+import GraphiqModel.Proofs.CompareRepairStab
+import GraphiqModel.Proofs.CompareRepairRenEq
+import GraphiqModel.Proofs.CompareRepairDirect
+import GraphiqModel.Proofs.CompareRepairEquiv
+import GraphiqModel.Proofs.CompareRepairComplete
 namespace Graphiq.C15
 open Graphiq Graphiq.Export Graphiq.Compare
 
@@ -164,6 +176,253 @@ theorem iso_symmetric (g1 g2 : MG) (f : List (Nd × Nd)) (h : isoCheck g1 g2 f =
 theorem iso_answer_is_checked (g1 g2 : MG) (h : isoGraphs g1 g2 = true) :
     ∃ f, isoCheck g1.addControlTarget g2.addControlTarget f = true := isoGraphs_witness g1 g2 h
 
+
+/-! ## 4. The repaired isomorphism method (handoff/repairs/d22): soundness proved
+
+  `circuitIsIsomorphic2` models `circuit_is_isomorphic` after the repair: `_create_edge_control_target_attr` also knows
+  the roles at classically controlled operations and the role `'m'` of a written classical register, and
+  `add_control_target_to_dag` gives every edge the pair (role at its tail, role at its head); `node_match`, `edge_match`
+  and `networkx.is_isomorphic` (specified by `isoCheck2`, never trusted as a search) are unchanged.  Lemmas in
+  Proofs/CompareRepair*.lean. -/
+
+/-- the quantifier of §4: every operation acts on registers of the circuit and on pairwise different ones (the control
+    of a two-qubit operation is not its target) -/
+def WellFormed (c : Circuit) : Prop := ∀ o ∈ c.ops, InRange c o ∧ (opWires o).Nodup
+
+instance (c : Circuit) : Decidable (WellFormed c) := by unfold WellFormed; infer_instance
+
+theorem wellFormed_opOK (c : Circuit) (h : WellFormed c) : ∀ o ∈ c.ops, OpOK (wiresN c.ne c.np c.nc) o :=
+  fun o ho => (opOK_iff c o).2 (h o ho)
+
+/-- the DAG `CircuitDAG.add` builds is a family of register paths — for every register the edges with its key form one
+    path from its input node through operation nodes to its output node — and the operations met along the path of
+    register `w` are the operations of the circuit that touch `w`, in the order they were added -/
+theorem dag_is_a_family_of_register_paths (c : Circuit) (h : WellFormed c) :
+    ∃ g, MG.build c = .ok g ∧ BuildInv (wiresN c.ne c.np c.nc) g c.ops :=
+  let ⟨g, hb, hi, _⟩ := build_rep c (wellFormed_opOK c h)
+  ⟨g, hb, hi⟩
+
+/-- on such a DAG the walk of the repaired `add_control_target_to_dag` (one pass per register, remembering the role at
+    the operation just left) labels **every** edge with (role of its register at its tail, role at its head) -/
+theorem repaired_walk_labels_every_edge (g : MG) (W : List Wire) (body : Wire → List Nd) (r : Rep0 g W body) :
+    g.addControlTarget2 = g.labelled ∧ Rep g.addControlTarget2 W body :=
+  ⟨addControlTarget2_eq g W body r, r.addControlTarget2⟩
+
+/-- different registers of one operation never have the same role (what makes the pair of roles identify the register) -/
+theorem roles_separate_registers (o : Op) (hn : (opWires o).Nodup) (w w' : Wire) (hw : w ∈ opWires o) (hw' : w' ∈ opWires o)
+    (h : role (some (.gate o)) w = role (some (.gate o)) w') : w = w' := role_inj o hn w w' hw hw' h
+
+/-- **graph level**: a node bijection that passes the repaired check between two labelled circuit DAGs maps the path of
+    every register `w` of the first onto the path of one register of the second — of the same type, input node to input
+    node, output node to output node, the operation nodes in order — and at every operation node the image register
+    plays the role `w` plays.  (This is the statement `iso_sound_partial` needs `KeyRespecting` for; with both ends of
+    every edge labelled it is a theorem.) -/
+theorem repaired_check_follows_every_register (g1 g2 : MG) (W1 W2 : List Wire) (B1 B2 : Wire → List Nd)
+    (r1 : Rep g1 W1 B1) (r2 : Rep g2 W2 B2) (f : List (Nd × Nd)) (h : isoCheck2 g1 g2 f = true) (w : Wire) (hw : w ∈ W1) :
+    wireMap (mapFn f) w ∈ W2 ∧ (wireMap (mapFn f) w).t = w.t ∧
+    mapFn f (.inp w) = .inp (wireMap (mapFn f) w) ∧ mapFn f (.out w) = .out (wireMap (mapFn f) w) ∧
+    B2 (wireMap (mapFn f) w) = (B1 w).map (mapFn f) ∧
+    ∀ n ∈ B1 w, role (g2.opOf (mapFn f n)) (wireMap (mapFn f) w) = role (g1.opOf n) w :=
+  iso2_wires g1 g2 W1 W2 B1 B2 r1 r2 (mapFn f) (isoCheck2_facts g1 g2 f h).2 w hw
+
+/-- **soundness of the repaired `circuit_is_isomorphic`** (the full statement of properties.jsonl for the repaired
+    function): if it reports two well-formed circuits isomorphic, there is a renaming `π` of the registers — a bijection
+    of the registers that preserves the register type (emitter / photon / classical), the register counts being equal —
+    such that on every register `w` the operations of the second circuit on `π w` are exactly the renamed operations of
+    the first circuit on `w`, in the same order, and both circuits have the same number of operations -/
+theorem iso_sound (c1 c2 : Circuit) (h1 : WellFormed c1) (h2 : WellFormed c2) (h : circuitIsIsomorphic2 c1 c2 = .ok true) :
+    ∃ π, RenamedBy π c1 c2 :=
+  iso2_sound c1 c2 (wellFormed_opOK c1 h1) (wellFormed_opOK c2 h2) h
+
+/-- … hence the renamed first circuit and the second differ only by exchanges of neighbouring operations acting on
+    disjoint quantum registers -/
+theorem iso_sound_up_to_commuting_exchanges (c1 c2 : Circuit) (h1 : WellFormed c1) (h2 : WellFormed c2)
+    (h : circuitIsIsomorphic2 c1 c2 = .ok true) :
+    ∃ π, RenamedBy π c1 c2 ∧ SwapEquiv (c1.ops.map (renOp π)) c2.ops := by
+  obtain ⟨π, hπ⟩ := iso_sound c1 c2 h1 h2 h
+  exact ⟨π, hπ, hπ.swapEquiv (wellFormed_opOK c1 h1) (wellFormed_opOK c2 h2)⟩
+
+/-- … hence **the same compiled state up to the renaming**, in every semantics `app` of single operations in which
+    operations on disjoint quantum registers commute (for the verified stabilizer semantics that commutation is
+    `C13.stabilizer_ops_on_disjoint_registers_commute`): running the renamed first circuit and running the second circuit
+    from any state give the same state -/
+theorem iso_sound_same_compiled_state {σ : Type} (app : Op → σ → σ)
+    (hcomm : ∀ a b, disjointOps a b = true → ∀ s, app b (app a s) = app a (app b s))
+    (c1 c2 : Circuit) (h1 : WellFormed c1) (h2 : WellFormed c2) (h : circuitIsIsomorphic2 c1 c2 = .ok true) :
+    ∃ π, RenamedBy π c1 c2 ∧
+      ∀ s, (c1.ops.map (renOp π)).foldl (fun s o => app o s) s = c2.ops.foldl (fun s o => app o s) s := by
+  obtain ⟨π, hπ, hs⟩ := iso_sound_up_to_commuting_exchanges c1 c2 h1 h2 h
+  exact ⟨π, hπ, fun s => hs.same_state app hcomm s⟩
+
+/-- kernel-checked: the repaired comparison tells every witness pair of §3 apart (also after normalisation, as the
+    filters call it), and `remove_redundant_circuits` with it keeps both circuits of the smallest pair -/
+theorem repaired_matcher_rejects_the_witnesses :
+    circuitIsIsomorphic2 witA witB = .ok false ∧ isoNormalised2 witA witB = .ok false ∧
+    circuitIsIsomorphic2 d22A d22B = .ok false ∧ circuitIsIsomorphic2 tailA tailB = .ok false ∧
+    removeRedundant2 [witA, witB] = [witA, witB] := by
+  decide +kernel
+
+/-- **the repaired isomorphism relation is reflexive and symmetric**: the identity map passes the check on every DAG with
+    distinct node names whose nodes all carry an operation, and the inverse of a map passing the check from `g1` to `g2`
+    passes it from `g2` to `g1` — so, `networkx.is_isomorphic` deciding existence, the comparison gives the same answer
+    for (a, b) and (b, a) -/
+theorem iso2_reflexive_and_symmetric :
+    (∀ g : MG, (g.nodes.map (·.1)).Nodup → (∀ n ∈ g.nodes.map (·.1), ∃ o, g.opOf n = some o) →
+      isoCheck2 g g (idMapOf g) = true) ∧
+    (∀ (g1 g2 : MG) (f : List (Nd × Nd)), isoCheck2 g1 g2 f = true → ∃ f', isoCheck2 g2 g1 f' = true) :=
+  ⟨isoCheck2_refl, fun g1 g2 f h => ⟨_, isoCheck2_symm g1 g2 f h⟩⟩
+
+/-- **a well-formed circuit is isomorphic to its copy**, as `compare` calls the repaired comparison and as the filters call
+    it: on the DAG `CircuitDAG.add` builds, and on its normalisation, the identity map passes the check -/
+theorem circuit_is_isomorphic_to_its_copy (c : Circuit) (h : WellFormed c) :
+    ∃ g, MG.build c = .ok g ∧ isoCheck2 g.addControlTarget2 g.addControlTarget2 (idMapOf g.addControlTarget2) = true ∧
+      isoCheck2 g.normalise.addControlTarget2 g.normalise.addControlTarget2 (idMapOf g.normalise.addControlTarget2) = true :=
+  build_iso_refl c (wellFormed_opOK c h)
+
+/-- **no false-distinct on renamed copies**: if the registers of a well-formed circuit are renamed by a type-preserving
+    bijection `π` of its registers (every operation renamed in place, same order), the repaired comparison has an
+    isomorphism to report — the node map "input/output nodes follow their register, operation nodes keep their id" passes
+    the full check (`networkx.is_isomorphic`, deciding existence, answers `True`).  Together with `iso_sound` this pins the
+    repaired function from both sides; the converse for arbitrary `RenamedBy` pairs (operations also reordered) is tested,
+    not proved. -/
+theorem renamed_copy_is_isomorphic (c : Circuit) (h : WellFormed c) (π : Wire → Wire)
+    (hπ : IsRenaming (wiresN c.ne c.np c.nc) π) (hsurj : ∀ w2 ∈ wiresN c.ne c.np c.nc, ∃ w ∈ wiresN c.ne c.np c.nc, π w = w2) :
+    ∃ g1 g2 f, MG.build c = .ok g1 ∧ MG.build ⟨c.ne, c.np, c.nc, c.ops.map (renOp π)⟩ = .ok g2 ∧
+      isoCheck2 g1.addControlTarget2 g2.addControlTarget2 f = true :=
+  renamed_copy_iso c (wellFormed_opOK c h) π hπ hsurj
+
+/-- a positive answer of the repaired model always exhibits a map that passes the full check (the search is never trusted) -/
+theorem iso2_answer_is_checked (g1 g2 : MG) (h : isoGraphs2 g1 g2 = true) :
+    ∃ f, isoCheck2 g1.addControlTarget2 g2.addControlTarget2 f = true := isoGraphs2_witness g1 g2 h
+
+/-- the DAG after `unwrap_nodes` and `remove_identity` (the copy `remove_redundant_circuits` compares) is again a family of
+    register paths, and the operations along the path of register `w` are the *executed* operations (`flat`: wrappers
+    expanded in application order, identities dropped) that touch `w` -/
+theorem normalised_dag_carries_the_flattened_circuit (c : Circuit) (h : WellFormed c) :
+    ∃ g, MG.build c = .ok g ∧ GraphInv (wiresN c.ne c.np c.nc) g.normalise (fun w => (flat c.ops).filter (touches w)) :=
+  let ⟨g, hb, hi, _⟩ := build_rep c (wellFormed_opOK c h)
+  ⟨g, hb, normalise_graphInv _ g c.ops hi⟩
+
+/-- **soundness of the repaired comparison as the filters call it** (copy, `unwrap_nodes`, `remove_identity`,
+    `circuit_is_isomorphic`): reported isomorphic ⇒ the executed operations of the two circuits are renamings of each
+    other register by register, hence differ (after renaming) only by exchanges of neighbouring operations on disjoint
+    registers -/
+theorem iso_normalised_sound (c1 c2 : Circuit) (h1 : WellFormed c1) (h2 : WellFormed c2)
+    (h : isoNormalised2 c1 c2 = .ok true) :
+    ∃ π, RenamedBy π (flatC c1) (flatC c2) ∧ SwapEquiv ((flat c1.ops).map (renOp π)) (flat c2.ops) := by
+  obtain ⟨π, hπ⟩ := isoNorm2_sound c1 c2 (wellFormed_opOK c1 h1) (wellFormed_opOK c2 h2) h
+  exact ⟨π, hπ, hπ.swapEquiv (flat_opOK _ _ (wellFormed_opOK c1 h1)) (flat_opOK _ _ (wellFormed_opOK c2 h2))⟩
+
+/-- **reported isomorphic ⇒ the same compiled stabilizer state up to the renaming** — in C13's verified stabilizer
+    semantics (`Commute.appG`: stabilizer group of a valid tableau on `ne + np` qubits plus the unread measurement outcomes;
+    gates by C07's `specGate`, measurements by `specMeasure`; that operations on disjoint registers commute there is
+    `C13.stabilizer_ops_on_disjoint_registers_commute`): for either form of the repaired comparison (as `compare` calls it,
+    or as the filters call it after normalisation), running the renamed executed operations of the first circuit and
+    running the executed operations of the second from any state give the same state, for every assignment of outcomes
+    to the measuring operations.  `toSOp` (Proofs/CompareRepairStab.lean) is the translation of an executed operation of
+    this model into an operation of C13's compile sequence: same class, same registers. -/
+theorem iso_sound_same_stabilizer_state (c1 c2 : Circuit) (h1 : WellFormed c1) (h2 : WellFormed c2)
+    (h : circuitIsIsomorphic2 c1 c2 = .ok true ∨ isoNormalised2 c1 c2 = .ok true) :
+    ∃ π, RenamedBy π (flatC c1) (flatC c2) ∧ ∀ (ne np : Nat) (s : Commute.GSt ne np),
+      Wire.runSeq (Commute.appG ne np) (((flat c1.ops).map (renOp π)).map toSOp) s =
+        Wire.runSeq (Commute.appG ne np) ((flat c2.ops).map toSOp) s := by
+  have key : ∃ π, RenamedBy π (flatC c1) (flatC c2) := by
+    rcases h with h | h
+    · obtain ⟨π, hπ⟩ := iso_sound c1 c2 h1 h2 h
+      exact ⟨π, hπ.flat⟩
+    · obtain ⟨π, hπ, _⟩ := iso_normalised_sound c1 c2 h1 h2 h
+      exact ⟨π, hπ⟩
+  obtain ⟨π, hπ⟩ := key
+  refine ⟨π, hπ, fun ne np s => ?_⟩
+  exact (hπ.swapEquiv (flat_opOK _ _ (wellFormed_opOK c1 h1)) (flat_opOK _ _ (wellFormed_opOK c2 h2))).same_stab_state ne np s
+
+/-- **`remove_redundant_circuits` with the repaired comparison keeps every distinct circuit** (the second half of the
+    property, for the repaired function): the result is a sub-list of the input, and every circuit that is dropped is —
+    in its executed operations — a renaming, register by register, of a circuit that is kept -/
+theorem dedup_sound (l : List Circuit) (hl : ∀ c ∈ l, WellFormed c) :
+    (removeRedundant2 l).Sublist l ∧
+    ∀ x ∈ l, x ∈ removeRedundant2 l ∨ ∃ k ∈ removeRedundant2 l, ∃ π, RenamedBy π (flatC k) (flatC x) :=
+  removeRedundant2_sound l (fun c hc => wellFormed_opOK c (hl c hc))
+
+/-- **the model of `direct` is its operation-list form.**  `direct` is the walk over the two simulated DAGs (build,
+    `unwrap_nodes`, `remove_identity`, then every register of both graphs in lock-step) — the function the driver compares
+    with the implementation; §1 is about `directL`.  On well-formed circuits the walk never raises and returns exactly
+    `directL` (register-path invariant of the normalised DAG, its node count, and an induction along the two paths), so
+    the agreement the harness tests on every input is a theorem, and every statement of §1 is a statement about the walk -/
+theorem direct_walk_is_its_operation_list_form (c1 c2 : Circuit) (h1 : WellFormed c1) (h2 : WellFormed c2) :
+    direct c1 c2 = .ok (directL c1 c2) :=
+  direct_eq_directL c1 c2 (wellFormed_opOK c1 h1) (wellFormed_opOK c2 h2)
+
+/-- **soundness of `direct` for the model of the code itself**: reported equal ⇒ same register counts and the same
+    executed operations on every quantum register -/
+theorem direct_sound_on_the_dag (c1 c2 : Circuit) (h1 : WellFormed c1) (h2 : WellFormed c2) (h : direct c1 c2 = .ok true) :
+    wiresEq c1 c2 = true :=
+  direct_graph_sound c1 c2 (wellFormed_opOK c1 h1) (wellFormed_opOK c2 h2) h
+
+/-- the walk is reflexive and symmetric, and does not raise -/
+theorem direct_reflexive_symmetric_on_the_dag (c1 c2 : Circuit) (h1 : WellFormed c1) (h2 : WellFormed c2) :
+    direct c1 c1 = .ok true ∧ direct c1 c2 = direct c2 c1 := by
+  rw [direct_walk_is_its_operation_list_form c1 c1 h1 h1, direct_walk_is_its_operation_list_form c1 c2 h1 h2,
+    direct_walk_is_its_operation_list_form c2 c1 h2 h1, directL_refl, directL_symm]
+  exact ⟨rfl, rfl⟩
+
+/-- … and insensitive to wrapping and to identity gates (the statement of §1 for the walk itself) -/
+theorem direct_insensitive_on_the_dag (pre post : List Op) (gs : List G1) (q : QReg) (ne np nc : Nat) (c2 : Circuit)
+    (h2 : WellFormed c2)
+    (hw : WellFormed ⟨ne, np, nc, pre ++ [.wrap gs q] ++ post⟩) (hu : WellFormed ⟨ne, np, nc, pre ++ Op.unwrap (.wrap gs q) ++ post⟩)
+    (hi : WellFormed ⟨ne, np, nc, pre ++ [.one .I q] ++ post⟩) (hn : WellFormed ⟨ne, np, nc, pre ++ post⟩) :
+    direct ⟨ne, np, nc, pre ++ [.wrap gs q] ++ post⟩ c2 = direct ⟨ne, np, nc, pre ++ Op.unwrap (.wrap gs q) ++ post⟩ c2 ∧
+    direct ⟨ne, np, nc, pre ++ [.one .I q] ++ post⟩ c2 = direct ⟨ne, np, nc, pre ++ post⟩ c2 := by
+  rw [direct_walk_is_its_operation_list_form _ c2 hw h2, direct_walk_is_its_operation_list_form _ c2 hu h2,
+    direct_walk_is_its_operation_list_form _ c2 hi h2, direct_walk_is_its_operation_list_form _ c2 hn h2]
+  obtain ⟨a, b⟩ := direct_insensitive_to_wrapping_and_identities pre post gs q ne np nc c2
+  rw [a, b]
+  exact ⟨rfl, rfl⟩
+
+/-- … and therefore **`CircuitStorage` with its default check** (`check_redundant_circuit` = `direct` on copies; an
+    exception counts as "different", as in the driver) **never refuses a distinct circuit**, stated for the graph-walk
+    model: a circuit that is not stored is, wire by wire, the same circuit as one that is stored -/
+theorem storage_default_keeps_every_distinct_on_the_dag (l : List Circuit) (hl : ∀ c ∈ l, WellFormed c) :
+    let eq := fun a b : Circuit => match checkRedundant a b with | .ok r => r | .error _ => false
+    ∀ x ∈ l, x ∈ (storageAddAll eq false l).1 ∨ ∃ k ∈ (storageAddAll eq false l).1, wiresEq k x = true := by
+  intro eq x hx
+  rw [storage_eq_removeRedundant]
+  have hsub : (removeRedundantWith eq l).Sublist l := (removeRedundantWith_spec eq l).1
+  rcases (removeRedundantWith_spec eq l).2 x hx with h | ⟨k, hk, hkx⟩
+  · exact Or.inl h
+  · refine Or.inr ⟨k, hk, ?_⟩
+    have hkl := hsub.subset hk
+    have hd : direct k x = .ok true := by
+      show checkRedundant k x = .ok true
+      cases hr : checkRedundant k x with
+      | ok r =>
+        have : eq k x = r := by show (match checkRedundant k x with | .ok r => r | .error _ => false) = r; rw [hr]
+        rw [this] at hkx; rw [hkx]
+      | error e =>
+        have : eq k x = false := by show (match checkRedundant k x with | .ok r => r | .error _ => false) = false; rw [hr]
+        rw [this] at hkx; cases hkx
+    exact direct_sound_on_the_dag k x (hl k hkl) (hl x hx) hd
+
+/-- **the original full statements of §3, now theorems**: `iso_sound_statement` and `dedup_iso_statement` (refuted above
+    for the matcher before the repair) hold literally — with the executable reference notion `renEq` the harness
+    evaluates by brute force — for the repaired functions on well-formed circuits -/
+theorem original_statements_hold_for_the_repaired_functions :
+    (∀ c1 c2 : Circuit, WellFormed c1 → WellFormed c2 → circuitIsIsomorphic2 c1 c2 = .ok true → renEq c1 c2 = true) ∧
+    (∀ l : List Circuit, (∀ c ∈ l, WellFormed c) →
+      ∀ x ∈ l, x ∈ removeRedundant2 l ∨ ∃ k ∈ removeRedundant2 l, renEq k x = true) := by
+  constructor
+  · intro c1 c2 h1 h2 h
+    obtain ⟨π, hπ⟩ := iso_sound c1 c2 h1 h2 h
+    exact hπ.renEq (wellFormed_opOK c1 h1) (wellFormed_opOK c2 h2)
+  · intro l hl x hx
+    obtain ⟨hsub, hall⟩ := dedup_sound l hl
+    rcases hall x hx with h | ⟨k, hk, π, hπ⟩
+    · exact Or.inl h
+    · refine Or.inr ⟨k, hk, ?_⟩
+      have hkl := hsub.subset hk
+      rw [← renEq_flatC]
+      exact hπ.renEq (flat_opOK _ _ (wellFormed_opOK k (hl k hkl))) (flat_opOK _ _ (wellFormed_opOK x (hl x hx)))
+
 /-! ## Non-vacuity -/
 
 /-- H e0; CNOT e0→p0; W[H,P] p0; measure-and-reset e0→p0; identity -/
@@ -187,5 +446,34 @@ example : isoCheck demoG demoG idMap = true := by decide +kernel
 example : nodupNd (demoG.nodes.map (·.1)) = true ∧ ∀ n ∈ demoG.nodes.map (·.1), (demoG.opOf n).isSome = true := by decide +kernel
 example : UniqueOut demoG := by unfold UniqueOut; decide +kernel
 example : ∀ n ∈ demoG.nodes.map (·.1), (applyMap idMap n).getD n = n := by decide +kernel
+
+/-- the hypotheses of §4 are met by real circuits: the witnesses and the demo circuits are well formed, and the repaired
+    comparison accepts a renamed copy (registers e0 ↔ e1 exchanged) of the D22 circuit and the re-bracketed demo pair after
+    normalisation -/
+def d22A' : Circuit := ⟨2, 0, 0, [.ctrl .CNOT e0 e1, .one .H e1, .ctrl .CNOT e0 e1, .ctrl .CNOT e0 e1]⟩
+
+example : WellFormed witA ∧ WellFormed witB ∧ WellFormed d22A ∧ WellFormed d22B ∧ WellFormed demo ∧ WellFormed demo' ∧ WellFormed d22A' := by
+  decide +kernel
+example : circuitIsIsomorphic2 d22A d22A' = .ok true ∧ circuitIsIsomorphic2 d22A d22A = .ok true ∧
+    isoNormalised2 demo demo' = .ok true := by decide +kernel
+example : removeRedundant2 [demo, demo', witA, witB, d22A, d22A'] = [demo, witA, witB, d22A] := by decide +kernel
+
+/-- `Rep0` / `Rep` are met by a real DAG: the demo circuit's -/
+example : ∃ g body, MG.build demo = .ok g ∧ Rep0 g (wiresN 1 1 1) body ∧ Rep g.addControlTarget2 (wiresN 1 1 1) body := by
+  obtain ⟨g, hb, ⟨body, r, _⟩⟩ := dag_is_a_family_of_register_paths demo (by decide +kernel)
+  exact ⟨g, body, hb, r, r.addControlTarget2⟩
+
+/-- the hypotheses of `direct_insensitive_on_the_dag` are met by a real instance -/
+example :
+    WellFormed ⟨1, 1, 0, [.one .H ⟨.e, 0⟩] ++ [.wrap [.H, .S] ⟨.p, 0⟩] ++ [.ctrl .CNOT ⟨.e, 0⟩ ⟨.p, 0⟩]⟩ ∧
+    WellFormed ⟨1, 1, 0, [.one .H ⟨.e, 0⟩] ++ Op.unwrap (.wrap [.H, .S] ⟨.p, 0⟩) ++ [.ctrl .CNOT ⟨.e, 0⟩ ⟨.p, 0⟩]⟩ ∧
+    WellFormed ⟨1, 1, 0, [.one .H ⟨.e, 0⟩] ++ [.one .I ⟨.p, 0⟩] ++ [.ctrl .CNOT ⟨.e, 0⟩ ⟨.p, 0⟩]⟩ ∧
+    WellFormed ⟨1, 1, 0, [.one .H ⟨.e, 0⟩] ++ [.ctrl .CNOT ⟨.e, 0⟩ ⟨.p, 0⟩]⟩ := by decide +kernel
+
+/-- the hypotheses are met: exchanging the two emitters of the D22 circuit is a renaming (and the model's search finds the
+    isomorphism: `circuitIsIsomorphic2 d22A d22A' = .ok true` above) -/
+example : IsRenaming (wiresN 2 0 0) (fun w => if w = ⟨.e, 0⟩ then ⟨.e, 1⟩ else if w = ⟨.e, 1⟩ then ⟨.e, 0⟩ else w) ∧
+    (⟨2, 0, 0, d22A.ops.map (renOp (fun w => if w = ⟨.e, 0⟩ then ⟨.e, 1⟩ else if w = ⟨.e, 1⟩ then ⟨.e, 0⟩ else w))⟩ : Circuit) = d22A' := by
+  refine ⟨⟨?_, ?_, ?_⟩, by decide⟩ <;> decide
 
 end Graphiq.C15
